@@ -15,6 +15,7 @@ package dns
 //@   stored at "byte((adc - 1) >> 8)," hi: uint16(adc - 1) / 256
 //@   stored at "byte(adc - 1)," lo: uint16(adc - 1) % 256
 //@   exit time: ret0 == nil ==> incept <= now && now <= expire
+//@   callsite "Write" hashed: (ref(arg0) == ref(buf) && ((sliceoff(arg0) == sliceoff(buf) + sigstart && len(arg0) == offset - sigstart) || (sliceoff(arg0) == sliceoff(buf) && len(arg0) == 10) || (sliceoff(arg0) == sliceoff(buf) + 12 && len(arg0) == bodyend - 12))) || (ref(arg0) != ref(buf) && len(arg0) == 2)
 //@   assert at "return ErrTime" outside: now < incept || now > expire
 //@   exit signer: ret0 == nil ==> callres("equal")
 //@   exit spans: ret0 == nil ==> 12 <= bodyend && bodyend + 11 <= sigstart && sigstart + 18 <= sigend && sigend <= len(buf)
@@ -46,6 +47,15 @@ package dns
 //@   requires rr != nil && m != nil
 //@   assume at "off, err := PackRR(rr, buf, len(mbuf), nil, false)" c08: len(mbuf) < len(buf)
 //@   ghost adc0 at "buf = buf[:off:cap(buf)]" buf[10] * 256 + buf[11]
+//@   ghost rd0 at "if len(buf) > int(^uint16(0)) {" buf[len(mbuf) + 9] * 256 + buf[len(mbuf) + 10]
+//@   ghost end0 at "rr.Signature = toBase64(signature)" len(buf)
+//@   assert at "rdlen := binary.BigEndian.Uint16(buf[rdoff:])" rdkept: buf[len(mbuf) + 9] * 256 + buf[len(mbuf) + 10] == rd0 && rdoff == len(mbuf) + 9
+//@   assert at "adc := binary.BigEndian.Uint16(buf[10:])" rdpatched: buf[len(mbuf) + 9] * 256 + buf[len(mbuf) + 10] == (rd0 + len(signature)) % 65536
+//@   exit rdlen: ret1 == nil ==> ret0[len(mbuf) + 9] * 256 + ret0[len(mbuf) + 10] == (rd0 + len(signature)) % 65536
+//@   exit tail: ret1 == nil ==> len(ret0) == end0 + len(signature) && len(ret0) <= 65535
+//@   exit sighdr1: ret1 == nil ==> rr.Hdr.Rrtype == 24 && rr.Hdr.Class == 255
+//@   exit sighdr2: ret1 == nil ==> rr.OrigTtl == 0 && rr.TypeCovered == 0 && rr.Labels == 0
+//@   callsite "Write" hashed: (sliceoff(arg0) == sliceoff(buf) + len(mbuf) + 11 && len(arg0) == len(buf) - len(mbuf) - 11) || (sliceoff(arg0) == sliceoff(buf) && len(arg0) == len(mbuf))
 //@   exit arcount: ret1 == nil ==> ret0[10] * 256 + ret0[11] == (adc0 + 1) % 65536
 //@   assert at "if &buf[0] != &mbuf[0] {" inplace: ref(buf) == ref(mbuf) && sliceoff(buf) == sliceoff(mbuf)
 
